@@ -250,7 +250,7 @@ def check(ctx):
         o.witness('action-loop')
         o.sample({'loop': heads[0].src(), 'line': heads[0].line})
     # the actions are performed by state changes only: nothing else (a registration, a query) invokes default_action or a stored override
-    owners = inv.covered(P, {'_update_state'})
+    owners = inv.covered(P, {'_update_state', 'initialize'})       # (initialize performs the start-up state entry -- C18.4)
     for s_ in inv.method_calls(P, 'default_action'):
         if s_.cls is not None and c in s_.cls.mro:
             o.count()
